@@ -132,13 +132,26 @@ def check(run, F, tier):
     else:
         r2.ok(f["name"], {"failing_paths": n})
 
-    r4 = run.rule("C07-R4", "a new session empties the handled set", floor=1)
+    r4 = run.rule("C07-R4", "a new session empties the handled set (clear_store_related; notify_closed when the session is not stored)", floor=2)
     N = modref.Norm(F)
     pv = N.post_values(ms["clear_store_related"]["path"])
     if pv and all(cur[SET] == ("EMPTY",) for _, cur in pv):
         r4.ok("clear_store_related")
     else:
         r4.violation("clear_store_related", "clear_store_related (run on every new session, C10-R2) does not empty qos2_publish_handled")
+
+    # a session that is not stored dies with the transport: notify_closed empties the set whenever need_store is false
+    nc = ms["notify_closed"]["path"]
+    pvc = N.post_values(nc)
+    badc = [p for p, cur in pvc if False in conn.bool_field_at_entry(F, p, "need_store") and cur[SET] != ("EMPTY",)]
+    nns = sum(1 for p, cur in pvc if conn.bool_field_at_entry(F, p, "need_store") == {False})
+    if not pvc or nns == 0:
+        r4.violation("notify_closed", "notify_closed: no path with need_store == false found (anchor lost)")
+    elif badc:
+        r4.violation("notify_closed", "notify_closed leaves qos2_publish_handled populated although the session is not stored (need_store == false)",
+                     conn.path_summary(badc[0]))
+    else:
+        r4.ok("notify_closed", {"paths_not_stored": nns})
 
     r5 = run.rule("C07-R5", "who-may-write qos2_publish_handled (reference list)", floor=1)
     idx = conn.gc_fields(F)[SET]["i"]
